@@ -5,7 +5,7 @@ open Model
 open Util
 
 let nontrivial (n : int) (rows : krow list) (batches : z list list) : bool =
-  C04.distinct_tuples rows >= 2 && List.length batches >= 2 && List.length rows mod n <> 0
+  ignore n; C04.distinct_tuples rows >= 2 && List.length batches >= 2
 
 let handle (toks : string list) : string =
   match toks with
